@@ -37,6 +37,7 @@ type lintProgram struct {
 	decls   []decl
 	modules map[string]string
 	desc    string
+	funcs   []string
 	dupSub  bool // two declarations of the same user subroutine: which one wins is order-dependent by definition
 }
 
@@ -53,7 +54,7 @@ func genStatements(c *worker.Ctx, p *lintProgram, scope string, users []string, 
 	n := 1 + c.T.Draw(4)
 	vars := scopeVars[scope]
 	for i := 0; i < n; i++ {
-		switch c.T.Draw(12) {
+		switch c.T.Draw(16) {
 		case 0:
 			fmt.Fprintf(&b, "  set %s = \"v\";\n", vars[c.T.Draw(len(vars))])
 		case 1:
@@ -89,8 +90,20 @@ func genStatements(c *worker.Ctx, p *lintProgram, scope string, users []string, 
 			fmt.Fprintf(&b, "  goto lbl%d;\n  set req.http.X-A = \"skipped\";\n  lbl%d:\n", i, i)
 		case 10:
 			fmt.Fprintf(&b, "  set req.http.X-A = std.tolower(%s);\n", []string{"req.http.X-A", "1", "beresp.http.X-B"}[c.T.Draw(3)])
-		default:
+		case 11:
 			fmt.Fprintf(&b, "  if (ratelimit.check_rate(req.http.X-A, rc_%d, 1, 10, 100, pb_%d, 2m)) { error 429; }\n", c.T.Draw(2), c.T.Draw(2))
+		case 12:
+			// capturing match, then reads of the capture variables
+			fmt.Fprintf(&b, "  if (req.http.X-A ~ \"^(a+)(b*)-(c)\") {\n    set req.http.X-A = re.group.%d;\n  }\n", c.T.Draw(5))
+		case 13:
+			// read of a capture variable without a preceding match in this subroutine
+			fmt.Fprintf(&b, "  set req.http.X-A = re.group.%d;\n", c.T.Draw(4))
+		case 14:
+			if len(p.funcs) > 0 {
+				fmt.Fprintf(&b, "  if (%s(req.http.X-A)) { set req.http.X-A = \"f\"; }\n", p.funcs[c.T.Draw(len(p.funcs))])
+			}
+		default:
+			fmt.Fprintf(&b, "  if (req.http.X-A !~ \"x(y)\") { set req.http.X-A = \"n\"; }\n")
 		}
 	}
 	return b.String()
@@ -102,6 +115,10 @@ func genProgram(c *worker.Ctx) *lintProgram {
 	var users []string
 	for i := 0; i < nUser; i++ {
 		users = append(users, fmt.Sprintf("u%d", i))
+	}
+	nf := c.T.Draw(3)
+	for i := 0; i < nf; i++ {
+		p.funcs = append(p.funcs, fmt.Sprintf("fn_%d", i))
 	}
 	add := func(kind, text string) { p.decls = append(p.decls, decl{kind, text}) }
 	// resources: some used, some unused, some duplicated
@@ -144,8 +161,19 @@ func genProgram(c *worker.Ctx) *lintProgram {
 		add("sub", fmt.Sprintf("sub %s {\n  set req.http.X-A = \"dup\";\n}\n", users[0])) // duplicate subroutine
 		p.dupSub = true
 	}
-	if c.T.Bool(1, 4) {
-		add("sub", "sub fn_a(STRING var.p) BOOL {\n  return var.p == \"a\";\n}\n")
+	for _, name := range p.funcs {
+		var body string
+		switch c.T.Draw(4) {
+		case 0:
+			body = "  return var.p == \"a\";\n"
+		case 1:
+			body = fmt.Sprintf("  if (re.group.%d == \"x\") {\n    return true;\n  }\n  return false;\n", c.T.Draw(4))
+		case 2:
+			body = "  if (var.p ~ \"^(k)(l)\") {\n    return re.group.2 == \"l\";\n  }\n  return false;\n"
+		default:
+			body = "  declare local var.t STRING;\n  set var.t = re.group.1;\n  return var.t == var.p;\n"
+		}
+		add("sub", fmt.Sprintf("sub %s(STRING var.p) BOOL {\n%s}\n", name, body))
 	}
 	// lifecycle subroutines
 	for _, s := range []string{"recv", "fetch", "deliver", "error"} {
@@ -156,35 +184,41 @@ func genProgram(c *worker.Ctx) *lintProgram {
 		ret := map[string]string{"recv": "  return(lookup);\n", "fetch": "  return(deliver);\n", "deliver": "  return(deliver);\n", "error": "  return(deliver);\n"}[s]
 		add("sub", fmt.Sprintf("sub vcl_%s {\n%s%s%s}\n", s, macro, genStatements(c, p, s, users, 2), ret))
 	}
-	// include graph
+	// include graph; module names are written with or without the .vcl extension
+	ext := func() string {
+		if c.T.Bool(1, 2) {
+			return ".vcl"
+		}
+		return ""
+	}
 	switch c.T.Draw(8) {
 	case 0:
 		p.desc = "include:missing"
 		add("other", "include \"nope\";\n")
 	case 1:
 		p.desc = "include:self"
-		p.modules["m0"] = "include \"m0\";\nsub helper_m0 { set req.http.X-A = \"m\"; }\n"
-		add("other", "include \"m0\";\n")
+		p.modules["m0"] = "include \"m0" + ext() + "\";\nsub helper_m0 { set req.http.X-A = \"m\"; }\n"
+		add("other", "include \"m0"+ext()+"\";\n")
 	case 2:
 		k := 2 + c.T.Draw(3)
 		p.desc = fmt.Sprintf("include:cycle%d", k)
 		for i := 0; i < k; i++ {
-			p.modules[fmt.Sprintf("m%d", i)] = fmt.Sprintf("include \"m%d\";\nsub helper_m%d { set req.http.X-A = \"m\"; }\n", (i+1)%k, i)
+			p.modules[fmt.Sprintf("m%d", i)] = fmt.Sprintf("include \"m%d%s\";\nsub helper_m%d { set req.http.X-A = \"m\"; }\n", (i+1)%k, ext(), i)
 		}
-		add("other", "include \"m0\";\n")
+		add("other", "include \"m0"+ext()+"\";\n")
 	case 3:
 		p.desc = "include:dag"
-		p.modules["m0"] = "include \"m1\";\nsub helper_m0 { call helper_m1; }\n"
+		p.modules["m0"] = "include \"m1" + ext() + "\";\nsub helper_m0 { call helper_m1; }\n"
 		p.modules["m1"] = "sub helper_m1 { set req.http.X-A = \"m\"; }\n"
-		add("other", "include \"m0\";\n")
+		add("other", "include \"m0"+ext()+"\";\n")
 	case 4:
 		p.desc = "include:syntax-error"
 		p.modules["m0"] = "sub broken { set = ; }\n"
 		add("other", "include \"m0\";\n")
 	case 5:
 		p.desc = "include:in-sub-self"
-		p.modules["m0"] = "include \"m0\";\nset req.http.X-A = \"m\";\n"
-		add("sub", "sub inc_user {\n  include \"m0\";\n}\n")
+		p.modules["m0"] = "include \"m0" + ext() + "\";\nset req.http.X-A = \"m\";\n"
+		add("sub", "sub inc_user {\n  include \"m0"+ext()+"\";\n}\n")
 	default:
 		p.desc = "no-include"
 	}
